@@ -100,7 +100,7 @@ theorem flat_settle (F : FlatDesign) (hF : F.WF) (as : List (LHS × Expr)) (hp :
     intro n k hn hu
     rcases FlatDesign.undriven_net hF hn (fun h' => hu ((hp.map tgt).mem_iff.mpr h')) with ⟨e, h1, h2, h3⟩ | ⟨R, hR, e, hq⟩
     · rw [e]; exact hin k ⟨h1, h2, h3⟩
-    · rw [e, ← hq]; exact hrq R hR) j hj
+    · rw [e, ← hq]; exact hrq R hR) trivial j hj
   intro k hk
   exact (hrel (F.nm k) k (FlatDesign.net_nm hF hk)).val
 
@@ -124,7 +124,7 @@ theorem flat_cycle (F : FlatDesign) (hF : F.WF) (as : List (LHS × Expr)) (hp : 
     Corr F as (cycleA (F.flatOf as) r) (clk F.netD.design 1 s) ∧
     ∀ k, k ∈ F.nets → (cycleA (F.flatOf as) r).val (F.nm k) = ⟨F.wd k, (clk F.netD.design 1 s).val k, true⟩ := by
   have C := FlatDesign.seqCorr hF as hp
-  have := cycle_corr C h
+  have := cycle_corr C h trivial trivial
   exact ⟨this.1, fun k hk => (this.2 (F.nm k) k (FlatDesign.net_nm hF hk)).val⟩
 
 /-- **power-up**: `rq = reset_value` on the Verilog side, `Reg.value = q = reset_value` on the simulator side
@@ -138,7 +138,7 @@ theorem flat_powerup (F : FlatDesign) (hF : F.WF) (as : List (LHS × Expr)) (hp 
   have hc := powerup_corr C (FlatDesign.powerUp hF as hp r0 h0)
   refine ⟨hc, ?_⟩
   intro k hk
-  have := observe_corr C hc (F.nm k) k (FlatDesign.net_nm hF hk)
+  have := observe_corr C hc trivial (F.nm k) k (FlatDesign.net_nm hF hk)
   have hidem : C05.PropIdem F.netD.design := C04.propIdem F.netD.design F.netD.comb C.sched.1
   have hfix : propagateAll F.netD.design (initC F.netD.design F.netD.st0 F.netD.cons)
       = initC F.netD.design F.netD.st0 F.netD.cons := hidem _
@@ -151,7 +151,7 @@ theorem flat_run_corr (F : FlatDesign) (hF : F.WF) (as : List (LHS × Expr)) (hp
     (r0 : Rd) (h0 : F.PowerUp0 r0) (ops : List Op) (hops : ∀ op, op ∈ ops → F.OpOK op) :
     Corr F as (ops.foldl (applyOpA (F.flatOf as) F.nm) r0) (runC F.netD.design F.netD.st0 F.netD.cons ops) :=
   run_corr (FlatDesign.seqCorr hF as hp) F.nm (FlatDesign.powerUp hF as hp r0 h0) ops
-    (fun op hop => FlatDesign.opOK hF as hp op (hops op hop))
+    (fun op hop => FlatDesign.opOK hF as hp op (hops op hop)) (goodRun_of_all _ (fun _ => trivial) _ _)
 
 /-- … hence after every clock step of every such history, every net (in particular every top-level output) carries
     exactly the simulator's value, known -/
@@ -162,7 +162,7 @@ theorem flat_run (F : FlatDesign) (hF : F.WF) (as : List (LHS × Expr)) (hp : as
         ⟨F.wd k, (runC F.netD.design F.netD.st0 F.netD.cons (ops ++ [Op.clk (n + 1)])).val k, true⟩ := by
   have C := FlatDesign.seqCorr hF as hp
   have hc := flat_run_corr F hF as hp r0 h0 ops hops
-  have := (clk_corr C hc (n + 1)).2 (Nat.succ_pos n)
+  have := (clk_corr C hc (n + 1) (fun _ _ => trivial)).2 (Nat.succ_pos n)
   intro k hk
   have hv := (this (F.nm k) k (FlatDesign.net_nm hF hk)).val
   simp only [runC, List.foldl_append, List.foldl, applyOpA, applyOp] at hv ⊢
